@@ -69,6 +69,7 @@ typedef struct hx_script {
     int ndev; hx_cbdev dev[4];      /* callback deviations: the n-th non-log callback does act      */
     int nfault; int fault[2];       /* the k-th allocation made inside libhtp fails (1-based)        */
     int light;                      /* 1: no per-tx records (long steady-state runs)                 */
+    int repeat;                     /* run the op list this many times (0/1 = once)                   */
     int want_canon;                 /* compute hx_obs.canon before teardown                          */
     const char *label;              /* free text carried into replay files                          */
     void (*inspect)(htp_connp_t *c, struct hx_obs *o, void *ctx);   /* called before teardown (hx_cur still set) */
